@@ -28,6 +28,7 @@ ASSUMPTIONS = [
     "bins within 1e-5 rad of a limit plane, and Nyquist bins whose two sign readings disagree, are don't-care",
     "k -> -k symmetry is demanded only on bins without a Nyquist component (DESIGN.md R2)",
     "alignment-model entry points exercised through ZNCCAlignment (thorough: also PCC, NCC, FSC)",
+    "added during the seeding waves: boxes 64^3, 49^3, (40,56,48), (64,160,128), long boxes (65,12,10) ... (131,5,4); unions of 1-4 members, nested, with a no-wedge member; a quaternion buffer re-used by the caller; apply_mask and tilt_range",
 ]
 
 RANGES = [(-60.0, 60.0), (-40.0, 55.0), (-50.0, 30.0), (0.0, 45.0), (-90.0, 90.0), (-90.0, 10.0), (-0.5, 0.5)]
